@@ -79,6 +79,8 @@ def access_path(body, t, roots=None, depth=0):
     Returns None when the term is not a place path (e.g. a computed value)."""
     if depth > 64:
         return None
+    if roots is not None and t in roots:
+        return (t, "")
     k = t[0]
     if k in ("arg", "var", "undef"):
         if k == "var" and not (roots is not None and t in roots):
